@@ -275,10 +275,6 @@ theorem ownD_same (m : Mode) (env : Env) (kw : Kw) (i : Option S) (p : List (Str
 
 
 
-theorem afterNot_map (n : Option S) (f : S → List Ev) (v : J) :
-    afterNot (match n with | none => none | some t => some (f t, v)) v = v := by
-  cases n <;> simp [afterNot]
-
 theorem outsEvs_map (l : List (List Ev)) (v : J) : outsEvs (l.map (fun t => (t, v))) = l := by
   simp [outsEvs, Function.comp_def]
 
@@ -371,25 +367,23 @@ theorem visitD_inert_all (m : Mode) (env : Env) :
     obtain ⟨hi2, hic⟩ := inert_or hi3
     obtain ⟨hia, hib⟩ := inert_or hi2
     have en := ihn hw hin
-    have hv1 : afterNot (notD m env n v) v = v := by rw [en]; exact afterNot_map n _ v
-    rw [hv1] at iho
     have eo := iho hw hic
     have hv2 : afterOne c kw (selD m env (discCheck kw v).ref c v) v = v := by
       apply afterOne_same; rw [eo]; intro o ho; simp only [List.mem_map] at ho; obtain ⟨t, _, rfl⟩ := ho; rfl
-    rw [hv1, hv2] at iha
+    rw [hv2] at iha
     have ea := iha hw hib
     have hv3 : afterAny b (eachD m env b v) v = v := by
       apply afterAny_same; rw [ea]; intro o ho; simp only [List.mem_map] at ho; obtain ⟨t, _, rfl⟩ := ho; rfl
-    rw [hv1, hv2, hv3] at ihl
+    rw [hv2, hv3] at ihl
     have el := ihl hw hia
     have hv4 : seqFin (seqD m env a v) v = v := by
       apply seqFin_same; rw [el]; intro o ho; simp only [List.mem_map] at ho; obtain ⟨t, _, rfl⟩ := ho; rfl
     have hown := ownD_same m env kw i p ad v hw hip (ihi hii) (ihp hip) (ihad hiad)
     unfold visitD
-    simp only [hv1, hv2, hv3, hv4]
+    simp only [hv2, hv3, hv4]
     rw [events_unfold]
     unfold nodeD evCombine
-    simp only [hv1, hv2, hv3, hv4, hown, ite_self]
+    simp only [hv2, hv3, hv4, hown, ite_self]
     rw [en, eo, ea, el]
     simp only [outsEvs_map]
     by_cases h1 : (v.isNull && kw.permitsNull) = true
@@ -562,7 +556,7 @@ theorem asmKvs_wf (m : Mode) (has : Option Bool) (props addl : List (String × O
 
 
 theorem nodeD_fin_cases (m : Mode) (env : Env) (kw : Kw) (a b c : List S) (p : List (String × S)) (sc : Bool) (v : J) (r : Subs) :
-    let v1 := afterNot r.rn v
+    let v1 := v
     let v2 := afterOne c kw r.ro v1
     let v3 := afterAny b r.ra v2
     let v4 := seqFin r.rl v3
@@ -727,19 +721,14 @@ theorem visitD_wf_all (m : Mode) (env : Env) :
     obtain ⟨hsa, hsb, hsc, hsn, hsi, hsp, hsad⟩ := hs
     unfold visitD
     simp only []
-    have w1 : WFJ (afterNot (notD m env n v) v) := by
-      unfold afterNot
-      split
-      · rename_i o ho; exact ihn hw hsn o ho
-      · exact hw
-    generalize hv1 : afterNot (notD m env n v) v = v1 at *
+    have w1 : WFJ v := hw
     have wro := iho w1 hsc
-    generalize hro : selD m env (discCheck kw v1).ref c v1 = ro at *
-    have w2 : WFJ (afterOne c kw ro v1) := by
-      rcases afterOne_cases c kw ro v1 with h | ⟨o, ho, h⟩
+    generalize hro : selD m env (discCheck kw v).ref c v = ro at *
+    have w2 : WFJ (afterOne c kw ro v) := by
+      rcases afterOne_cases c kw ro v with h | ⟨o, ho, h⟩
       · rw [h]; exact w1
       · rw [h]; exact wro o ho
-    generalize hv2 : afterOne c kw ro v1 = v2 at *
+    generalize hv2 : afterOne c kw ro v = v2 at *
     have wra := iha w2 hsb
     generalize hra : eachD m env b v2 = ra at *
     have w3 : WFJ (afterAny b ra v2) := by
@@ -760,7 +749,7 @@ theorem visitD_wf_all (m : Mode) (env : Env) :
         props := propsD m env p (ownKvs env kw p v4), addl := addlD m env ad (undeclared p (ownKvs env kw p v4)) }
       with h | h | h | h | h
     · rw [h]; exact hw
-    all_goals simp only [hv1, hro, hv2, hra, hv3, hrl, hv4] at h
+    all_goals try simp only [hro, hv2, hra, hv3, hrl, hv4] at h
     · rw [h]; exact w1
     · rw [h]; exact w2
     · rw [h]; exact w4
@@ -1065,7 +1054,7 @@ theorem ownD_agree (m m' : Mode) (env : Env) (kw : Kw) (p : List (String × S)) 
 def nodePass (m : Mode) (env : Env) (kw : Kw) (a b c : List S) (p : List (String × S)) (sc : Bool) (v : J) (r : Subs) : Bool :=
   if v.isNull && kw.permitsNull then true else
   if sc then !v.isNull else
-  let v1 := afterNot r.rn v
+  let v1 := v
   let v2 := afterOne c kw r.ro v1
   let v3 := afterAny b r.ra v2
   let v4 := seqFin r.rl v3
@@ -1104,8 +1093,8 @@ theorem nodeD_fin_of_pass (m : Mode) (env : Env) (kw : Kw) (a b c : List S) (p :
     (nodeD m env kw a b c p sc v r).2 =
       (if v.isNull && kw.permitsNull then v else if sc then v else
        if (v.isNull && (!c.isEmpty || !b.isEmpty || !a.isEmpty)) then
-         seqFin r.rl (afterAny b r.ra (afterOne c kw r.ro (afterNot r.rn v)))
-       else (ownD m env kw p (seqFin r.rl (afterAny b r.ra (afterOne c kw r.ro (afterNot r.rn v)))) r.items r.props r.addl).2) := by
+         seqFin r.rl (afterAny b r.ra (afterOne c kw r.ro v))
+       else (ownD m env kw p (seqFin r.rl (afterAny b r.ra (afterOne c kw r.ro v))) r.items r.props r.addl).2) := by
   unfold nodePass at h
   unfold nodeD
   split
@@ -1132,20 +1121,19 @@ theorem nodeD_fin_of_pass (m : Mode) (env : Env) (kw : Kw) (a b c : List S) (p :
 theorem allOK_nil : allOK [] = true := by simp [allOK, outsEvs, passCount]
 
 theorem nodeD_agree (m m' : Mode) (env : Env) (kw : Kw) (a b c : List S) (p : List (String × S)) (sc : Bool) (v : J) (r r' : Subs)
-    (hrn : r.rn = r'.rn) (hro : AgreeL r.ro r'.ro) (hra : AgreeL r.ra r'.ra)
+    (hrn : notOK r.rn = notOK r'.rn) (hro : AgreeL r.ro r'.ro) (hra : AgreeL r.ra r'.ra)
     (hrl : allOK r.rl = allOK r'.rl ∧
-      (allOK r.rl = true → seqFin r.rl (afterAny b r.ra (afterOne c kw r.ro (afterNot r.rn v))) =
-                           seqFin r'.rl (afterAny b r.ra (afterOne c kw r.ro (afterNot r.rn v)))))
+      (allOK r.rl = true → seqFin r.rl (afterAny b r.ra (afterOne c kw r.ro v)) =
+                           seqFin r'.rl (afterAny b r.ra (afterOne c kw r.ro v))))
     (hown : allOK r.rl = true →
-      Agree (ownD m env kw p (seqFin r.rl (afterAny b r.ra (afterOne c kw r.ro (afterNot r.rn v)))) r.items r.props r.addl)
-            (ownD m' env kw p (seqFin r.rl (afterAny b r.ra (afterOne c kw r.ro (afterNot r.rn v)))) r'.items r'.props r'.addl))
+      Agree (ownD m env kw p (seqFin r.rl (afterAny b r.ra (afterOne c kw r.ro v))) r.items r.props r.addl)
+            (ownD m' env kw p (seqFin r.rl (afterAny b r.ra (afterOne c kw r.ro v))) r'.items r'.props r'.addl))
     (hlm : a.isEmpty = true → r.rl = [] ∧ r'.rl = []) :
     Agree (nodeD m env kw a b c p sc v r) (nodeD m' env kw a b c p sc v r') := by
-  have e1 : afterNot r'.rn v = afterNot r.rn v := by rw [hrn]
-  have e2 : afterOne c kw r'.ro (afterNot r.rn v) = afterOne c kw r.ro (afterNot r.rn v) := (agreeL_afterOne c kw hro _).symm
-  have e3 : afterAny b r'.ra (afterOne c kw r.ro (afterNot r.rn v)) = afterAny b r.ra (afterOne c kw r.ro (afterNot r.rn v)) :=
+  have e2 : afterOne c kw r'.ro v = afterOne c kw r.ro v := (agreeL_afterOne c kw hro _).symm
+  have e3 : afterAny b r'.ra (afterOne c kw r.ro v) = afterAny b r.ra (afterOne c kw r.ro v) :=
     (agreeL_afterAny b hra _).symm
-  have eo : oneOK c kw r'.ro (afterNot r.rn v) = oneOK c kw r.ro (afterNot r.rn v) := (agreeL_oneOK c kw hro _).symm
+  have eo : oneOK c kw r'.ro v = oneOK c kw r.ro v := (agreeL_oneOK c kw hro _).symm
   have ea : anyOK b r'.ra = anyOK b r.ra := (agreeL_anyOK b hra).symm
   have hpass : nodePass m env kw a b c p sc v r = nodePass m' env kw a b c p sc v r' := by
     unfold nodePass
@@ -1154,7 +1142,7 @@ theorem nodeD_agree (m m' : Mode) (env : Env) (kw : Kw) (a b c : List S) (p : Li
     · split
       · rfl
       · dsimp only
-        rw [e1, e2, e3, eo, ea, ← hrn, ← hrl.1]
+        rw [e2, e3, eo, ea, ← hrn, ← hrl.1]
         cases hall : allOK r.rl with
         | true =>
           rw [← hrl.2 hall, (hown hall).1]
@@ -1181,11 +1169,11 @@ theorem nodeD_agree (m m' : Mode) (env : Env) (kw : Kw) (a b c : List S) (p : Li
           cases hae : a.isEmpty with
           | true => rw [(hlm hae).1]; exact allOK_nil
           | false => simpa [hae] using hp.1.2
-        rw [e1, e2, e3, ← hrl.2 hall]
+        rw [e2, e3, ← hrl.2 hall]
         split
         · rfl
         · rename_i hs
-          have hownp : passesL (ownD m env kw p (seqFin r.rl (afterAny b r.ra (afterOne c kw r.ro (afterNot r.rn v)))) r.items r.props r.addl).1 = true := by
+          have hownp : passesL (ownD m env kw p (seqFin r.rl (afterAny b r.ra (afterOne c kw r.ro v))) r.items r.props r.addl).1 = true := by
             unfold nodePass at hp
             simp only [h1, h2, if_false, Bool.false_eq_true] at hp
             simp only [Bool.and_eq_true, hs, Bool.false_or] at hp
@@ -1217,49 +1205,41 @@ theorem agreeL_map {α} (f g : α → Out) : ∀ (xs : List α), (∀ x ∈ xs, 
   | [], _ => .nil
   | x :: xs, h => .cons (h x (by simp)) (agreeL_map f g xs (fun y hy => h y (List.mem_cons_of_mem _ hy)))
 
-/-- what a `not` child that cannot inject returns, in every mode -/
-def notInert (env : Env) (n : Option S) (v : J) : Option Out :=
-  match n with | none => none | some t => some (events env t v, v)
-
-theorem afterNot_notInert (env : Env) (n : Option S) (v : J) : afterNot (notInert env n v) v = v := by
-  cases n <;> simp [notInert, afterNot]
-
 theorem modes_agree_all (m m' : Mode) (env : Env) :
-    (∀ (s : S) (v : J), WFJ v → s.dfltsWF → s.dfltUnderNot = false → Agree (visitD m env s v) (visitD m' env s v)) ∧
-    (∀ (ad : Option S) (_kvs : List (String × J)), dfltsWFO ad → dfltUnderNotO ad = false →
+    (∀ (s : S) (v : J), WFJ v → s.dfltsWF → Agree (visitD m env s v) (visitD m' env s v)) ∧
+    (∀ (ad : Option S) (_kvs : List (String × J)), dfltsWFO ad →
         ∀ t, ad = some t → ∀ x, WFJ x → Agree (visitD m env t x) (visitD m' env t x)) ∧
-    (∀ (p : List (String × S)) (_kvs : List (String × J)), dfltsWFP p → dfltUnderNotP p = false →
+    (∀ (p : List (String × S)) (_kvs : List (String × J)), dfltsWFP p →
         ∀ k s, lookup k p = some s → ∀ x, WFJ x → Agree (visitD m env s x) (visitD m' env s x)) ∧
-    (∀ (i : Option S) (_xs : List J), dfltsWFO i → dfltUnderNotO i = false →
+    (∀ (i : Option S) (_xs : List J), dfltsWFO i →
         ∀ t, i = some t → ∀ x, WFJ x → Agree (visitD m env t x) (visitD m' env t x)) ∧
-    (∀ (ss : List S) (v : J), WFJ v → dfltsWFL ss → dfltUnderNotL ss = false →
+    (∀ (ss : List S) (v : J), WFJ v → dfltsWFL ss →
         allOK (seqD m env ss v) = allOK (seqD m' env ss v) ∧
         (allOK (seqD m env ss v) = true → seqFin (seqD m env ss v) v = seqFin (seqD m' env ss v) v)) ∧
-    (∀ (ss : List S) (v : J), WFJ v → dfltsWFL ss → dfltUnderNotL ss = false → AgreeL (eachD m env ss v) (eachD m' env ss v)) ∧
-    (∀ (dr : String) (ss : List S) (v : J), WFJ v → dfltsWFL ss → dfltUnderNotL ss = false →
+    (∀ (ss : List S) (v : J), WFJ v → dfltsWFL ss → AgreeL (eachD m env ss v) (eachD m' env ss v)) ∧
+    (∀ (dr : String) (ss : List S) (v : J), WFJ v → dfltsWFL ss →
         AgreeL (selD m env dr ss v) (selD m' env dr ss v)) ∧
-    (∀ (_n : Option S) (_v : J), True) := by
+    (∀ (n : Option S) (v : J), WFJ v → dfltsWFO n → notOK (notD m env n v) = notOK (notD m' env n v)) := by
   refine visitD.mutual_induct m env
-    (motive_1 := fun s v => WFJ v → s.dfltsWF → s.dfltUnderNot = false → Agree (visitD m env s v) (visitD m' env s v))
-    (motive_2 := fun ad _ => dfltsWFO ad → dfltUnderNotO ad = false →
+    (motive_1 := fun s v => WFJ v → s.dfltsWF → Agree (visitD m env s v) (visitD m' env s v))
+    (motive_2 := fun ad _ => dfltsWFO ad →
         ∀ t, ad = some t → ∀ x, WFJ x → Agree (visitD m env t x) (visitD m' env t x))
-    (motive_3 := fun p _ => dfltsWFP p → dfltUnderNotP p = false →
+    (motive_3 := fun p _ => dfltsWFP p →
         ∀ k s, lookup k p = some s → ∀ x, WFJ x → Agree (visitD m env s x) (visitD m' env s x))
-    (motive_4 := fun i _ => dfltsWFO i → dfltUnderNotO i = false →
+    (motive_4 := fun i _ => dfltsWFO i →
         ∀ t, i = some t → ∀ x, WFJ x → Agree (visitD m env t x) (visitD m' env t x))
-    (motive_5 := fun ss v => WFJ v → dfltsWFL ss → dfltUnderNotL ss = false →
+    (motive_5 := fun ss v => WFJ v → dfltsWFL ss →
         allOK (seqD m env ss v) = allOK (seqD m' env ss v) ∧
         (allOK (seqD m env ss v) = true → seqFin (seqD m env ss v) v = seqFin (seqD m' env ss v) v))
-    (motive_6 := fun ss v => WFJ v → dfltsWFL ss → dfltUnderNotL ss = false → AgreeL (eachD m env ss v) (eachD m' env ss v))
-    (motive_7 := fun dr ss v => WFJ v → dfltsWFL ss → dfltUnderNotL ss = false → AgreeL (selD m env dr ss v) (selD m' env dr ss v))
-    (motive_8 := fun _ _ => True)
+    (motive_6 := fun ss v => WFJ v → dfltsWFL ss → AgreeL (eachD m env ss v) (eachD m' env ss v))
+    (motive_7 := fun dr ss v => WFJ v → dfltsWFL ss → AgreeL (selD m env dr ss v) (selD m' env dr ss v))
+    (motive_8 := fun n v => WFJ v → dfltsWFO n → notOK (notD m env n v) = notOK (notD m' env n v))
     ?main ?seqNil ?seqCons ?eachNil ?eachCons ?selNil ?selCons ?adNone ?adSome ?itNone ?itSome ?notNone ?notSome ?pNil ?pCons
-  case seqNil => intro v _ _ _; simp [seqD, seqFin]
+  case seqNil => intro v _ _; simp [seqD, seqFin]
   case seqCons =>
-    intro s ss v ih1 ih2 hw hs hx
+    intro s ss v ih1 ih2 hw hs
     simp only [dfltsWFL] at hs
-    simp only [dfltUnderNotL, Bool.or_eq_false_iff] at hx
-    have ag := ih1 hw hs.1 hx.1
+    have ag := ih1 hw hs.1
     simp only [seqD, allOK_cons, seqFin]
     cases hp : passesL (visitD m env s v).1 with
     | false =>
@@ -1269,76 +1249,62 @@ theorem modes_agree_all (m m' : Mode) (env : Env) :
       have hp' : passesL (visitD m' env s v).1 = true := by rw [← ag.1]; exact hp
       have e2 := ag.2 hp
       have hw2 : WFJ (visitD m env s v).2 := (visitD_wf_all m env).1 s v hw hs.1
-      have := ih2 hw2 hs.2 hx.2
+      have := ih2 hw2 hs.2
       rw [← e2]
       simp only [hp, hp', Bool.true_and, if_true]
       exact this
-  case eachNil => intro v _ _ _; simp only [eachD]; exact .nil
+  case eachNil => intro v _ _; simp only [eachD]; exact .nil
   case eachCons =>
-    intro s ss v ih1 ih2 hw hs hx
+    intro s ss v ih1 ih2 hw hs
     simp only [dfltsWFL] at hs
-    simp only [dfltUnderNotL, Bool.or_eq_false_iff] at hx
     simp only [eachD]
-    exact .cons (ih1 hw hs.1 hx.1) (ih2 hw hs.2 hx.2)
-  case selNil => intro dr v _ _ _; simp only [selD]; exact .nil
+    exact .cons (ih1 hw hs.1) (ih2 hw hs.2)
+  case selNil => intro dr v _ _; simp only [selD]; exact .nil
   case selCons =>
-    intro dr s ss v ih1 ih2 hw hs hx
+    intro dr s ss v ih1 ih2 hw hs
     simp only [dfltsWFL] at hs
-    simp only [dfltUnderNotL, Bool.or_eq_false_iff] at hx
     simp only [selD]
-    refine .cons ?_ (ih2 hw hs.2 hx.2)
+    refine .cons ?_ (ih2 hw hs.2)
     split
-    · exact ih1 hw hs.1 hx.1
+    · exact ih1 hw hs.1
     · exact Agree.refl _
-  case adNone => intro _ _ _ t h; cases h
+  case adNone => intro _ _ t h; cases h
   case adSome =>
-    intro t kvs ih hs hx t' ht x hwx
+    intro t kvs ih hs t' ht x hwx
     cases ht
-    exact ih ("", x) hwx (by simpa [dfltsWFO] using hs) (by simpa [dfltUnderNotO] using hx)
-  case itNone => intro _ _ _ t h; cases h
+    exact ih ("", x) hwx (by simpa [dfltsWFO] using hs)
+  case itNone => intro _ _ t h; cases h
   case itSome =>
-    intro t xs ih hs hx t' ht x hwx
+    intro t xs ih hs t' ht x hwx
     cases ht
-    exact ih x hwx (by simpa [dfltsWFO] using hs) (by simpa [dfltUnderNotO] using hx)
-  case notNone => intro _; trivial
-  case notSome => intros; trivial
-  case pNil => intro kvs _ _ k s h; simp [lookup] at h
+    exact ih x hwx (by simpa [dfltsWFO] using hs)
+  case notNone => intro v _ _; simp [notD]
+  case notSome =>
+    intro t v ih hw hs
+    simp only [notD, notOK]
+    rw [(ih hw (by simpa [dfltsWFO] using hs)).1]
+  case pNil => intro kvs _ k s h; simp [lookup] at h
   case pCons =>
-    intro k0 s0 ps kvs ih1 ih2 hs hx k s hl x hwx
+    intro k0 s0 ps kvs ih1 ih2 hs k s hl x hwx
     simp only [dfltsWFP] at hs
-    simp only [dfltUnderNotP, Bool.or_eq_false_iff] at hx
     simp only [lookup] at hl
     split at hl
-    · cases hl; exact ih1 x hwx hs.2.1 hx.1
-    · exact ih2 hs.2.2 hx.2 k s hl x hwx
+    · cases hl; exact ih1 x hwx hs.2.1
+    · exact ih2 hs.2.2 k s hl x hwx
   case main =>
     intro kw a b c n i p ad v
     dsimp only
-    intro _ iho iha ihl ihi ihp ihad hw hs hx
+    intro ihn iho iha ihl ihi ihp ihad hw hs
     unfold S.dfltsWF at hs
     obtain ⟨hsa, hsb, hsc, hsn, hsi, hsp, hsad⟩ := hs
-    unfold S.dfltUnderNot at hx
-    simp only [Bool.or_eq_false_iff] at hx
-    obtain ⟨⟨⟨⟨⟨⟨⟨hxn1, hxn2⟩, hxa⟩, hxb⟩, hxc⟩, hxi⟩, hxp⟩, hxad⟩ := hx
-    -- the `not` child cannot inject: both modes see `events`, the value stays
-    have hnot : ∀ mm, notD mm env n v = notInert env n v := by
-      intro mm
-      cases n with
-      | none => simp [notD, notInert]
-      | some t =>
-        simp only [notD, notInert]
-        rw [visitD_inert mm env t v hw (Or.inr (by simpa [hasPropDfltO] using hxn1))]
-    have hv1 : ∀ mm, afterNot (notD mm env n v) v = v := by
-      intro mm; rw [hnot mm]; exact afterNot_notInert env n v
-    rw [hv1 m] at iho
-    have ago := iho hw hsc hxc
+    have agn := ihn hw hsn
+    have ago := iho hw hsc
     have e2 := agreeL_afterOne c kw ago v
     have w2 : WFJ (afterOne c kw (selD m env (discCheck kw v).ref c v) v) := by
       rcases afterOne_cases c kw (selD m env (discCheck kw v).ref c v) v with h | ⟨o, ho, h⟩
       · rw [h]; exact hw
       · rw [h]; exact (visitD_wf_all m env).2.2.2.2.2.2.1 _ c v hw hsc o ho
-    rw [hv1 m] at iha
-    have aga := iha w2 hsb hxb
+    have aga := iha w2 hsb
     have e3 := agreeL_afterAny b aga (afterOne c kw (selD m env (discCheck kw v).ref c v) v)
     have w3 : WFJ (afterAny b (eachD m env b (afterOne c kw (selD m env (discCheck kw v).ref c v) v))
         (afterOne c kw (selD m env (discCheck kw v).ref c v) v)) := by
@@ -1346,10 +1312,9 @@ theorem modes_agree_all (m m' : Mode) (env : Env) :
           (afterOne c kw (selD m env (discCheck kw v).ref c v) v) with h | ⟨o, ho, h⟩
       · rw [h]; exact w2
       · rw [h]; exact (visitD_wf_all m env).2.2.2.2.2.1 b _ w2 hsb o ho
-    rw [hv1 m] at ihl
-    have agl := ihl w3 hsa hxa
+    have agl := ihl w3 hsa
     unfold visitD
-    simp only [hv1 m, hv1 m', hnot m, hnot m', afterNot_notInert]
+    simp only []
     rw [← e2, ← e3]
     generalize hv2 : afterOne c kw (selD m env (discCheck kw v).ref c v) v = v2 at *
     generalize hv3 : afterAny b (eachD m env b v2) v2 = v3 at *
@@ -1358,11 +1323,11 @@ theorem modes_agree_all (m m' : Mode) (env : Env) :
       · rw [h]; exact w3
       · rw [h]; exact (visitD_wf_all m env).2.2.2.2.1 a v3 w3 hsa o ho
     apply nodeD_agree
-    · rfl
+    · exact agn
     · exact ago
     · exact aga
-    · simp only [afterNot_notInert, hv2, hv3]; exact agl
-    · simp only [afterNot_notInert, hv2, hv3]
+    · simp only [hv2, hv3]; exact agl
+    · simp only [hv2, hv3]
       intro hall
       rw [← agl.2 hall]
       generalize seqFin (seqD m env a v3) v3 = v4 at *
@@ -1377,7 +1342,7 @@ theorem modes_agree_all (m m' : Mode) (env : Env) :
             cases v4 with
             | arr xs => simp only [itemsOf] at hx'; simp only [WFJ] at w4; exact wfjl_mem w4 x hx'
             | _ => simp [itemsOf] at hx'
-          exact ihi hsi hxi t rfl x hwx
+          exact ihi hsi t rfl x hwx
       · cases i with
         | none => left; simp [itemsD]
         | some t => right; simp [itemsD]
@@ -1396,7 +1361,7 @@ theorem modes_agree_all (m m' : Mode) (env : Env) :
                 simp only [WFJ] at w4
                 exact wfjp_mem (ownKvs_wf env kw p kvs hsp w4.1 w4.2).2 (k, x) (lookup_some_mem _ k x hlx)
               | _ => simp [ownKvs, lookup] at hlx
-            exact ihp hsp hxp k s hlp x hwx
+            exact ihp hsp k s hlp x hwx
       · intro k
         cases ad with
         | none => simp [addlD, lookup, LookAgree]
@@ -1417,7 +1382,7 @@ theorem modes_agree_all (m m' : Mode) (env : Env) :
                 simp only [WFJ] at w4
                 exact wfjp_mem (ownKvs_wf env kw p kvs hsp w4.1 w4.2).2 (k, x) (lookup_some_mem _ k x hlx')
               | _ => simp [ownKvs, lookup] at hlx'
-            exact ihad hsad hxad t rfl x hwx
+            exact ihad hsad t rfl x hwx
     · intro hae
       have : a = [] := by simpa using hae
       subst this
@@ -1426,15 +1391,15 @@ theorem modes_agree_all (m m' : Mode) (env : Env) :
 
 /-! ### C12 under default injection -/
 
-/-- **Modes change the report, never the verdict — with DefaultsSet too**, outside the class of F-C12-1 (a `default`
-that the injection loop can reach below a `not`): for every schema whose defaults are well-formed values, every
-well-formed value, every request/response reading and option set, any two of the four modes give the same verdict, and
-when they accept they hand back the SAME value (with the same defaults injected). -/
-theorem modes_agree_with_defaults_partial (m m' : Mode) (env : Env) (s : S) (v : J)
-    (hw : WFJ v) (hs : s.dfltsWF) (hx : s.dfltUnderNot = false) :
+/-- **Modes change the report, never the verdict — with DefaultsSet too** (full strength since the repair of F-C12-1:
+`not` validates a deep copy): for every schema whose defaults are well-formed values, every well-formed value, every
+request/response reading and option set, any two of the four modes give the same verdict, and when they accept they
+hand back the SAME value (with the same defaults injected). -/
+theorem modes_agree_with_defaults (m m' : Mode) (env : Env) (s : S) (v : J)
+    (hw : WFJ v) (hs : s.dfltsWF) :
     (validateD m env s v).1.isOk = (validateD m' env s v).1.isOk ∧
     ((validateD m env s v).1.isOk = true → (validateD m env s v).2 = (validateD m' env s v).2) := by
-  have h := (modes_agree_all m m' env).1 s v hw hs hx
+  have h := (modes_agree_all m m' env).1 s v hw hs
   unfold validateD
   simp only [mode_independent]
   exact h
@@ -1486,7 +1451,7 @@ theorem anyOf_only_matched (b : List S) (ra : List Out) (v : J) :
       right; exact ⟨o, firstPass_mem ho, firstPass_passes ho, ho, rfl⟩
     · left; rfl
 
-/-! ### F-C12-1: inside the class the modes do part (kernel-checked witness), and the theorem is not vacuous -/
+/-! ### F-C12-1 (fixed): the former witness is a regression theorem — all modes accept and leave the value alone -/
 
 def f1Env : Env := { regex := fun _ _ => none, strFormat := fun _ _ => none, asreq := true, dfl := true }
 /-- `{not: {properties: {a: {type: string}, b: {properties: {c: {default: "x"}}}}}, properties: {b: {maxProperties: 0}}}` -/
@@ -1499,10 +1464,11 @@ def f1Schema : S :=
 def f1Value : J := .obj [("a", .bool true), ("b", .obj [])]
 
 theorem F_C12_1_in_class : f1Schema.dfltUnderNot = true := by decide
-/-- default mode accepts and leaves the value alone … -/
-theorem F_C12_1_witness_default : (validateD .dflt f1Env f1Schema f1Value).1.isOk = true := by decide
-/-- … multi-error mode went on inside the failing `not` child, injected `c`, and rejects `b` for having a property -/
-theorem F_C12_1_witness_multi : (validateD .multi f1Env f1Schema f1Value).1.isOk = false := by decide
+theorem F_C12_1_regression_default : (validateD .dflt f1Env f1Schema f1Value).1.isOk = true := by decide
+/-- before the repair multi-error mode went on inside the failing `not` child, injected `c` into the value itself and
+rejected `b` for having a property -/
+theorem F_C12_1_regression_multi : (validateD .multi f1Env f1Schema f1Value).1.isOk = true := by decide
+theorem F_C12_1_regression_silent : callbackFires .multi f1Env f1Schema f1Value = false := by decide
 
 /-- non-vacuity: defaults outside any `not` — injected, visited, and the modes agree -/
 def okSchema : S :=
